@@ -9,6 +9,15 @@ import time
 from . import core
 
 
+def first_diff(a, b, width=160):
+    """The part of a around the first position where it differs from b."""
+    k = 0
+    while k < len(a) and k < len(b) and a[k] == b[k]:
+        k += 1
+    lo = max(0, k - 40)
+    return repr(a[lo:lo + width])
+
+
 class TieResult:
     def __init__(self, name):
         self.name = name
@@ -88,7 +97,12 @@ class Runner:
             if has_model:
                 gg, mm = (canon(g), canon(m)) if canon else (g, m)
                 if gg != mm:
-                    res.mismatches.append((shard, i, c, g, m))
+                    if tie.get("spec"):
+                        # the other side is the independent specification: a difference IS a failing input
+                        o = "FAIL [%s] implementation differs from the specification: impl %s ... spec %s" % (
+                            tie["spec"], first_diff(g, m), first_diff(m, g))
+                    else:
+                        res.mismatches.append((shard, i, c, g, m))
             tags = tie.get("tags")
             if o.startswith("FAIL") and tags:
                 # an oracle line may carry verdicts for several properties: "[Cxx] text ;; [Cyy] text"
